@@ -71,7 +71,21 @@ def _run(prog):
             classes.append({"cls": n, "comps": comp_list(c.components), "len": len(c), "tag": c.tag if isinstance(c.tag, int) else -99,
                             "contains": [[tn, bool(t in c) and bool(c.has_class_component(t))] for tn, t in TYPES.items()], "get": get})
         return {"classes": classes,
-                "inst": [{"cls": n, "tag": a.tag if isinstance(a.tag, int) else -99, "comps": comp_list(a.components)} for n, a in insts]}
+                "inst": [{"cls": n, "tag": a.tag if isinstance(a.tag, int) else -99, "comps": comp_list(a.components),
+                          "len": len(a), "api": [inst_api(a, tn, t) for tn, t in TYPES.items()]} for n, a in insts]}
+
+    def inst_api(a, tn, t):
+        has = bool(t in a) and bool(a.has_component(t))
+        r1, r2 = a[t], a.get_component(t)
+        ser = serial.get(id(r1), -1) if (r1 is not None and r1 is r2) else (0 if (r1 is None and r2 is None) else -2)
+        try:
+            a.get_component(t, throw_error=True)
+            strict = "ok"
+        except ComponentNotFoundError:
+            strict = "ComponentNotFoundError"
+        except Exception as e:  # noqa: BLE001
+            strict = "Unexpected:" + type(e).__name__
+        return [tn, has, ser, strict]
 
     keep = []
     for op in prog:
